@@ -272,6 +272,27 @@ def run(ctx):
             must_raise("ModuleIdentityObject.encode", ModuleIdentityObject.encode, bad)
         for data in [b"", b"\x01\x00", bytes(14), bytes(14) + b"\x05ab"]:
             must_raise("ModuleIdentityObject.decode", ModuleIdentityObject.decode, data)
+        # the exported composite objects (identity items, revision, IP address, template attributes): EVERY truncation point of a
+        # complete encoding built by hand - also the one that cuts only the final byte - is "not enough data"
+        import struct as _st
+        from pycomm3.custom_types import StructTemplateAttributes, ListIdentityObject, Revision, IPAddress
+        rng_ = ctx.rng()
+        for _ in range(6):
+            name = bytes(rng_.randrange(32, 127) for _ in range(rng_.choice([0, 1, 7, 32])))
+            ident = (_st.pack("<HHHBB2sI", rng_.choice([1, 5, 0xFFFF]), rng_.choice([0x0C, 0x0E, 0x7FFF]), rng_.randrange(65536), rng_.randrange(256), rng_.randrange(256),
+                              bytes([rng_.randrange(256), rng_.randrange(256)]), rng_.getrandbits(32)) + bytes([len(name)]) + name)
+            li = (_st.pack("<HHHhH4sQ", 0x0C, len(ident) + 21, 1, 2, rng_.randrange(65536), bytes(rng_.randrange(256) for _ in range(4)), 0) + ident + bytes([rng_.randrange(256)]))
+            for label, fn, full in [("ModuleIdentityObject.decode", ModuleIdentityObject.decode, ident), ("ListIdentityObject.decode", ListIdentityObject.decode, li),
+                                    ("Revision.decode", Revision.decode, ident[6:8]), ("IPAddress.decode", IPAddress.decode, li[10:14]),
+                                    ("StructTemplateAttributes.decode", StructTemplateAttributes.decode,
+                                     _st.pack("<HHHIHHIHHHHHH", 4, 4, 0, rng_.getrandbits(32), 5, 0, rng_.getrandbits(32), 2, 0, rng_.randrange(65536), 1, 0, rng_.randrange(65536)))]:
+                st_, out_ = budget.call(BUDGET, fn, full)
+                res.ev()
+                if st_ != "ok":
+                    res.violation(f"complete-encoding-rejected:{label}:{type(out_).__name__ if st_ == 'exc' else st_}", f"{label}({full.hex()}) raised {out_!r:.120} on a complete encoding", None)
+                    continue
+                for k in range(len(full)):
+                    must_raise(label, fn, full[:k])
 
     budget.disarm()
     budget.stop()
